@@ -682,7 +682,7 @@ impl Sess {
     }
 }
 
-fn run_session(si: u64, rng: &mut Rng, r: &mut Report, deadline: Instant, steps: u64) {
+fn run_session(si: u64, rng: &mut Rng, r: &mut Report, deadline: Instant, steps: u64, with_races: bool) {
     let mut params = ChainParams::default();
     match si % 3 {
         0 => {
@@ -740,7 +740,7 @@ fn run_session(si: u64, rng: &mut Rng, r: &mut Report, deadline: Instant, steps:
         let tip = s.tg.tip();
         let tip_n = s.tg.rc.get(&tip).number;
         let k = s.rng.below(100);
-        if k < 7 && tip_n >= 4 && races < 3 {
+        if with_races && k < 7 && tip_n >= 4 && races < 3 {
             races += 1;
             s.race_episode(r);
             continue;
@@ -791,13 +791,15 @@ fn main() {
     let sessions = args.get_u64("sessions", args.tier.pick(40, 2000));
     let steps = args.get_u64("steps", args.tier.pick(60, 110));
     let deadline = Instant::now() + Duration::from_secs(budget);
+    // `race=0` disables the race episodes (diagnosis only: the run is then inconclusive)
+    let with_races = args.get_u64("race", 1) != 0;
     for si in 0..sessions {
         if Instant::now() > deadline {
             r.note("stopped_by_budget_after_sessions", json!(si));
             break;
         }
         let mut srng = rng.fork(si);
-        run_session(si, &mut srng, &mut r, deadline, steps);
+        run_session(si, &mut srng, &mut r, deadline, steps, with_races);
         for p in hooks::take_panics() {
             let file = p.location.rsplit('/').next().unwrap_or("").split(':').next().unwrap_or("").to_string();
             r.violation(
